@@ -18,6 +18,11 @@ CLAIMED['C14'] = dict(
    technique="Coq proof over a hand-written lexer model + differential correspondence + proved-recogniser oracle",
    design_ref="5/C14")
 
+CLAIMED['C15'] = dict(
+   text="Kernel-checked theorems for all well-formed strings x all bijective vocabularies x all pad lengths (props/C15.v: label list = indices then [nop] padding, length max(len,pad); one-hot rows are unit rows; encoding_to_selfies of either returns the string plus padding; batch functions are element-wise and mutually inverse; missing symbol -> KeyError, bad enc_type / ragged vector -> ValueError). Model of encoding_utils.py tied to the code by differential correspondence (values and exception classes) over random vocabularies incl. broken ones.",
+   technique="Coq proof over a hand-written model of encoding_utils.py + differential correspondence + spec oracle",
+   design_ref="5/C15")
+
 PENDING = {}
 for i in range(1, 20):
     pid = 'C%02d' % i
